@@ -61,7 +61,8 @@ def oracle(ctx, cases):
             lines = [ln for ln in str(e).split("\n - ")[1:]]
             if not c.real:
                 ctx.violation("validate_or_fail raised without errors", schema=repr(c.schema), value=repr(c.value))
-            elif len(lines) < len(c.real) or not all(m in str(e) for m in msgs):
+            elif len(lines) != len(c.real) or not all(m in str(e) for m in msgs):
+                # one " - " entry per error (an entry may span several physical lines: schemas print on several lines)
                 ctx.violation("ValidationException does not carry one line per error", schema=repr(c.schema),
                               value=repr(c.value), message=str(e))
         except Exception as e:  # noqa: BLE001
